@@ -392,7 +392,7 @@ func runMode(t *testing.T, property string, scenarios []*Scenario) {
 		st.Emitted = idx
 		// An enumerated catalogue that finished early is swept again under further
 		// seeds (other transport schedules, keys, payloads) while budget remains.
-		for st.Complete && sc.Enumerated && maxCases == 0 && time.Now().Before(until) && st.Rounds < 1000 {
+		for st.Complete && sc.Enumerated && len(random) == 0 && maxCases == 0 && time.Now().Before(until) && st.Rounds < 1000 {
 			st.Rounds++
 			idx = 0
 			g.Seed = seed + uint64(st.Rounds)*7_777_777
